@@ -169,7 +169,10 @@ func (fa *FakeAuth) serve(w http.ResponseWriter, r *http.Request) {
 		case "refresh":
 			body = map[string]interface{}{"access_token": a.Token, "expires_in": a.ExpiresIn}
 		case "validate":
-			body = map[string]interface{}{}
+			// like the real authenticator's ValidateToken: a bare status, no body (sso-proxy never reads or closes
+			// this response's body, so a body would pin the connection until the client's 5 s timeout)
+			w.WriteHeader(success)
+			return
 		case "profile":
 			g := a.Groups
 			if g == nil {
@@ -186,6 +189,9 @@ func (fa *FakeAuth) serve(w http.ResponseWriter, r *http.Request) {
 			st = 500
 		}
 		w.WriteHeader(st)
+		if ep == "validate" && (st == 401 || st == 400) {
+			return // ValidateToken answers 400 / 401 with a bare status too
+		}
 		w.Write([]byte(`{"error":"scripted"}`))
 	}
 }
